@@ -416,6 +416,33 @@ Proof.
   unfold vall_hf. apply forallb_forall. intros c Hc. rewrite (Hh c Hc). reflexivity.
 Qed.
 
+(* ---- failed hand-overs --------------------------------------------------------------------- *)
+
+(* A report from which no VAM could be handed over leaves no trace: no VAM, the state (last VAM
+   time, dynamics references, time of the last low-frequency container, first-VAM flag) is the
+   one before the report, and every later VAM is the one the history without it produces. *)
+Lemma tv_failed_no_trace pre r post :
+  vreach (pre ++ [vfailed r]) = vreach pre /\
+  vouts (pre ++ [vfailed r] ++ post) = vouts (pre ++ post).
+Proof.
+  assert (E : forall s, vstep gen_vparams s (vfailed r) = (s, [])).
+  { intros s. reflexivity. }
+  split.
+  - unfold vreach. rewrite vrun_app, vrun_single. cbn [fst]. rewrite E. reflexivity.
+  - unfold vouts. rewrite (vrun_app _ _ pre ([vfailed r] ++ post)), (vrun_app _ _ pre post). cbn [snd]. f_equal.
+    cbn [app]. rewrite vrun_cons, E. reflexivity.
+Qed.
+
+(* concrete run: the VAM due at +2100 ms with the low-frequency container fails (twice); the VAM
+   at +2300 carries the container *)
+Lemma example_vrun_failed :
+  snd (vrun gen_vparams (vinit gen_vparams)
+         [vrep 630000000000 0 0; vrep 630000000100 0 0; vfailed (vrep 630000002100 0 0);
+          vfailed (vrep 630000002200 0 0); vrep 630000002300 0 0; vrep 630000002400 0 0])
+  = [Vam 630000000000 true 7168; Vam 630000000100 false 7268; Vam 630000002300 true 9468;
+     Vam 630000002400 false 9568].
+Proof. vm_compute. reflexivity. Qed.
+
 Lemma vam_constants :
   T_GENVAMMIN = 100 /\ T_GENVAMMAX = 5000 /\ T_GENVAM_LFMIN = 2000 /\
   T_GENVAMMIN <= T_GENVAM_INITIAL <= T_GENVAMMAX /\
